@@ -264,9 +264,9 @@ func TestC20(t *testing.T) {
 	for _, h := range corpusOps("C20") {
 		run(append([]string{"reset"}, h...))
 	}
-	hist := 300
+	hist := 3000
 	if r.Tier == "thorough" {
-		hist = 4000
+		hist = 20000
 	}
 	if n := envInt("VERIF_N", 0); n > 0 {
 		hist = int(n)
